@@ -386,6 +386,44 @@ class C02(Check):
                             acc.violation('v2-long-dump-events', {'kind': 'long', 'n': n, 'pad': pad, 'entry': entry},
                                           {'got_n': len(got), 'exp_n': n, 'err': err,
                                            'first_diff': next((i for i, (x, y) in enumerate(zip(got, exp)) if x != y), None)})
+            # the caller's stream belongs to the caller: after a parse it can be rewound and handed in again (same parser / a new one), for
+            # every kind of stream object
+            import gc
+            import os
+            import tempfile
+            blob, threads, recs = build((0, 1), 64, ('cap', 'ff'))
+            exp = [ref_decode(r) for r in recs]
+            fd, path = tempfile.mkstemp(prefix='verif_c02_')
+            os.write(fd, blob)
+            os.close(fd)
+            try:
+                for kind in ('BytesIO', 'BufferedReader-over-BytesIO', 'file-unbuffered', 'file-buffered'):
+                    for entry in ('kd', 'kd-same-parser', 'facade'):
+                        st = {'BytesIO': lambda: io.BytesIO(blob), 'BufferedReader-over-BytesIO': lambda: io.BufferedReader(io.BytesIO(blob), buffer_size=128),
+                              'file-unbuffered': lambda: open(path, 'rb', buffering=0), 'file-buffered': lambda: open(path, 'rb')}[kind]()
+                        p1 = KdBufParser({}, {})
+                        f1 = PyKdebugParser()
+                        got = []
+                        try:
+                            for rnd in range(3):
+                                st.seek(0)
+                                src = (KdBufParser({}, {}) if entry == 'kd' else p1).parse(st) if entry != 'facade' else f1.kevents(st)
+                                got.append([obs_event(e) for e in src])
+                                del src
+                                gc.collect()
+                            err = None
+                        except Exception as ex:
+                            err = type(ex).__name__ + ': ' + str(ex)[:80]
+                        finally:
+                            try:
+                                st.close()
+                            except Exception:
+                                pass
+                        acc.case(nontrivial=True, transitions=3, outcome=h64(('rewind', kind, entry)))
+                        if err or got != [exp, exp, exp]:
+                            acc.violation('v2-stream-cannot-be-rewound-and-parsed-again', {'kind': 'long', 'stream': kind, 'entry': entry}, {'err': err, 'rounds': [len(g) for g in got]})
+            finally:
+                os.unlink(path)
             # the dump does not begin at stream position 0 (every pad kind, with and without thread map)
             for off in (1, 7, 8, 63, 64, 0x100, 0x120, 0x123, 4000, 4091, 4096, 4100):
                 for tm in ((), (0,), (0, 1)):
